@@ -45,6 +45,7 @@ type Program struct {
 	main     *ssa.Package // package holding the harnesses
 	opts     RunOpts
 	extCache sync.Map // *ssa.Function -> externalFn (or nil marker)
+	sentinels sync.Map // *ssa.Global -> sentinelInfo
 	Files    map[string]bool
 }
 
